@@ -71,6 +71,38 @@ def views_case(case):
         if abs(got - from_dist) > TOL or abs(got - from_ref) > TOL:
             return {"ok": False, "msg": "exact <Z_%s> is not the eigenvalue average under the exact distribution" % (list(S),), "expected": [float(from_dist), float(from_ref)],
                     "observed": float(got), "sig": "views:expectation"}
+    # the same operator OBJECTS asked again after other views were computed from them (qubit-reversed expectation in between), and unsimplified sums
+    # that repeat a Pauli string: the exact expectation is still the eigenvalue average
+    from orquestra.quantum.operators import PauliSum, PauliTerm, get_expectation_value
+    zops = {S: z_op(S) for S in subsets}
+    for S in subsets:
+        op = zops[S]
+        ref = sum(pref[idx_of(b, n)] * (-1) ** sum(b[q] for q in S) for b in allkeys)
+        first = sim.get_exact_expectation_values(c, op)
+        width = max(n, 1)
+        revd = complex(get_expectation_value(op, wf, reverse_operator=True)) if (not S or max(S) < width) else None
+        again = sim.get_exact_expectation_values(c, op)
+        k += 3
+        Srev = tuple(n - 1 - q for q in S)
+        ref_rev = sum(pref[idx_of(b, n)] * (-1) ** sum(b[q] for q in Srev) for b in allkeys)
+        if abs(first - ref) > TOL or abs(again - ref) > TOL:
+            return {"ok": False, "msg": "exact <Z_%s> asked twice for one operator object (a qubit-reversed expectation in between): %s then %s" % (list(S), first, again), "expected": float(ref),
+                    "observed": [float(np.real(first)), float(np.real(again))], "sig": "views:expectation-again"}
+        op2 = z_op(S)      # a second object: qubit-reversed view first, ordinary view afterwards
+        revd2 = complex(get_expectation_value(op2, wf, reverse_operator=True))
+        fwd2 = sim.get_exact_expectation_values(c, op2)
+        k += 2
+        if abs(revd2 - ref_rev) > TOL or abs(fwd2 - ref) > TOL:
+            return {"ok": False, "msg": "one operator object Z_%s: qubit-reversed expectation first (%s, expected %s), exact expectation afterwards (%s, expected %s)" % (list(S), revd2, ref_rev, fwd2, ref),
+                    "sig": "views:expectation-after-reversed"}
+        if revd is not None and abs(revd - ref_rev) > TOL:
+            return {"ok": False, "msg": "reverse_operator=True expectation of Z_%s is not <Z_%s>" % (list(S), list(Srev)), "expected": float(ref_rev), "observed": str(revd), "sig": "views:expectation-reversed"}
+        for dup, scale in ((PauliSum([op, op]), 2.0), (PauliSum([PauliTerm.copy(op, 0.5), PauliTerm("I0", 0.25), PauliTerm.copy(op, 1.5), PauliTerm("I0", 0.5)]), None)):
+            got = sim.get_exact_expectation_values(c, dup)
+            want = 2.0 * ref if scale else 2.0 * ref + 0.75
+            k += 1
+            if abs(got - want) > TOL:
+                return {"ok": False, "msg": "exact expectation of an unsimplified sum repeating Z_%s" % (list(S),), "expected": float(want), "observed": float(np.real(got)), "sig": "views:expectation-repeated"}
     # sampling: both regimes, every answer script within the bound
     support = [b for b in allkeys if pref[idx_of(b, n)] > 1e-12]
     n_exec = 0
@@ -159,7 +191,8 @@ def wide_case(case):
     from orquestra.quantum import circuits as C
     from orquestra.quantum.runners.symbolic_simulator import SymbolicSimulator
     n, xs, ry, k = case["n"], case["x"], case["ry"], case["samples"]
-    ops = [C.X(q) for q in xs] + ([C.RY(0.7)(ry)] if ry is not None else [])
+    cnots = [tuple(ct) for ct in case.get("cnot", [])]
+    ops = [C.X(q) for q in xs] + ([C.RY(0.7)(ry)] if ry is not None else []) + [C.CNOT(ct, tg) for ct, tg in cnots]
     c = C.Circuit(ops, n_qubits=n)
     bits = tuple(1 if q in xs else 0 for q in range(n))
     support = {bits: 1.0}
@@ -167,6 +200,9 @@ def wide_case(case):
         b1 = tuple(1 - b if q == ry else b for q, b in enumerate(bits))
         p1 = float(np.sin(0.35) ** 2)
         support = {bits: 1 - p1, b1: p1}
+    for ct, tg in cnots:      # a CNOT permutes basis states: the target bit of every supported outcome is flipped where its control bit is 1
+        support = {tuple((x ^ b[ct]) if q == tg else x for q, x in enumerate(b)): pr for b, pr in support.items()}
+    bits = max(support, key=support.get)
     sim = SymbolicSimulator()
     amps = np.asarray(sim.get_wavefunction(c).amplitudes, dtype=complex).reshape(-1)
     probs = np.abs(amps) ** 2
@@ -177,7 +213,7 @@ def wide_case(case):
     for b, pr in support.items():
         if abs(dist.get(b, 0.0) - pr) > TOL:
             return {"ok": False, "msg": "exact distribution: key %s should carry %.4f" % (b, pr), "observed": float(dist.get(b, 0.0)), "sig": "wide:distribution"}
-    for q in sorted({0, 1, n // 2, n - 2, n - 1} | set(xs)):
+    for q in sorted({0, 1, n // 2, n - 2, n - 1} | set(xs) | {x for ct in cnots for x in ct}):
         got = sim.get_exact_expectation_values(c, z_op((q,)))
         exp = sum(pr * (-1) ** b[q] for b, pr in support.items())
         if abs(got - exp) > TOL:
@@ -207,7 +243,7 @@ def wide_case(case):
             ref_counts["".join(map(str, sh))] = ref_counts.get("".join(map(str, sh)), 0) + 1
         if dict(counts) != ref_counts:
             return {"ok": False, "msg": "count strings are not the sampled tuples written left to right", "sig": "wide:counts"}
-        for q in (0, n - 1, xs[0] if xs else 1):
+        for q in sorted({0, n - 1, xs[0] if xs else 1} | {x for ct in cnots for x in ct}):
             ev = m.get_expectation_values(z_op((q,))).values[0]
             exp = float(rs.mean([F(rs.eig(sh, (q,))) for sh in shots]))
             if abs(ev - exp) > 1e-12:
@@ -332,6 +368,12 @@ def run(run):
         for xs, ry in (([0], n - 1), ([n - 1], 0), ([1], n // 2)):
             for k in (2, 2 ** n + 1):
                 wide.append({"n": n, "x": xs, "ry": ry, "samples": k})
-    secs.append(Section("wide", wide, wide_case, horizon=900, desc="registers of 9 (thorough 8-10) qubits, where a basis index needs more than one byte: basis and two-outcome states, "
+    # two-qubit gates whose qubits are far apart (a distance no small register contains), in both directions, after a flip of the control / of a bystander
+    for n in ((7, 8, 9, 10) if thorough else (7, 9)):
+        for ct, tg in ((0, n - 1), (n - 1, 0), (1, n - 2), (n - 1, 1), (0, 6), (n - 2, 0)):
+            wide.append({"n": n, "x": [ct], "ry": None, "cnot": [[ct, tg]], "samples": 1})
+            wide.append({"n": n, "x": [tg], "ry": None, "cnot": [[ct, tg]], "samples": 2 ** n + 1})
+            wide.append({"n": n, "x": [], "ry": ct, "cnot": [[ct, tg], [tg, (ct + 1) % n if (ct + 1) % n != tg else (ct + 2) % n]], "samples": 2})
+    secs.append(Section("wide", wide, wide_case, horizon=900, desc="registers of 9 (thorough 8-10) qubits, where a basis index needs more than one byte: basis and two-outcome states, also entangled by CNOTs between far-apart qubits (7 and 9 qubits), "
                         "both sampling regimes (1-2 samples, 2^n+1 samples), every answer script with <= 1 deviation"))
     run.run_sections(secs)
